@@ -165,7 +165,7 @@ PROPS = {
                 "(60..110 digits) where e^x crosses a power of ten; long digit strings; ordered pairs x < y for the two-ulp order check. Each result is judged against a rational enclosure of e^x "
                 "(scaling-and-squaring, Taylor partial sums with a remainder bound, outward-rounded fixed-point interval arithmetic at 45+ guard digits): strictly positive, exactly the "
                 "configured number of digits, within one unit of the last digit; and compared exactly with the model (series loop with impl_division).",
-        "trusted_base": TB_COMMON + ["Mathlib's Real.exp and the HasSum of its series (the one-unit bound is a theorem for |x| <= 1000: C13_accuracy_to_1000_code); the enclosure of e^x that judges each generated argument is proved sound with respect to Real.exp (C13_enclosure_sound, C13_oracle_accepts_only_one_ulp); termination within the fuel is observed per input"],
+        "trusted_base": TB_COMMON + ["Mathlib's Real.exp and the HasSum of its series (the one-unit bound is a theorem for |x| <= 1000: C13_accuracy_to_1000_code); the enclosure of e^x that judges each generated argument is proved sound with respect to Real.exp (C13_enclosure_sound, C13_oracle_accepts_only_one_ulp)"],
         "assumptions": ASSUME_COMMON,
     },
     "C14": {
